@@ -13,6 +13,7 @@ from __future__ import annotations
 
 import json
 import random
+import re
 import time
 from urllib.parse import parse_qsl, unquote
 
@@ -39,8 +40,30 @@ def _walk(schema: dict, at: list) -> dict:
     return node
 
 
-def _attach(holder: dict, schema: dict, exs: list, comps: dict, prefix: str) -> None:
+_ext: dict = {"server": None, "values": []}
+
+
+def _external_url(value) -> str:
+    """URL on a process-local loopback server that answers with the JSON text of `value` (for `externalValue` examples)."""
+    import os
+
+    if _ext["server"] is None or _ext.get("pid") != os.getpid():
+        from .server import LoopbackServer
+
+        def behaviour(rec):
+            try:
+                return 200, [("Content-Type", "application/json")], json.dumps(_ext["values"][int(rec.path.rsplit("/", 1)[1])]).encode()
+            except Exception:
+                return 404, [("Content-Type", "text/plain")], b"no such example"
+
+        _ext.update(server=LoopbackServer(behaviour).start(), pid=os.getpid(), values=[])
+    _ext["values"].append(value)
+    return "%s/ex/%d" % (_ext["server"].base_url, len(_ext["values"]) - 1)
+
+
+def _attach(holder: dict, schema: dict, exs: list, shared: dict, prefix: str) -> None:
     """Write the examples of one parameter / media type into the document the way their form says."""
+    comps = shared["examples"]
     for e in exs:
         vals = [decode_value(v) for v in e["vals"]]
         if e["level"] == "schema":
@@ -53,6 +76,8 @@ def _attach(holder: dict, schema: dict, exs: list, comps: dict, prefix: str) -> 
             holder[e["form"]] = vals[0]
         elif e["form"] in ("examples", "x-examples"):
             holder[e["form"]] = {"e%d" % (i + 1): {"value": v} for i, v in enumerate(vals)}
+        elif e["form"] == "examples-external":
+            holder["examples"] = {"e%d" % (i + 1): {"externalValue": _external_url(v)} for i, v in enumerate(vals)}
         elif e["form"] == "examples-ref":
             holder["examples"] = {}
             for i, v in enumerate(vals):
@@ -63,62 +88,95 @@ def _attach(holder: dict, schema: dict, exs: list, comps: dict, prefix: str) -> 
             raise ValueError("unknown example form %r" % e["form"])
 
 
-def build_operation(op: dict, idx: int, comps: dict) -> tuple[str, str, dict]:
+def build_operation(op: dict, idx: int, shared: dict) -> tuple[str, str, dict]:
+    """-> (path, method, path item).  `op.flags` decide how the same inputs are written ($ref'd objects, path-level parameters)."""
     dialect = op["dialect"]
     is2 = dialect == "2.0"
+    flags = op.get("flags") or {}
     path = "/d%d" % idx
     params = []
+
+    def param_entry(obj: dict, key: str) -> dict:
+        if flags.get("refParam") or (is2 and flags.get("refBody") and obj["in"] == "body"):
+            shared["parameters"][key] = obj
+            return {"$ref": ("#/parameters/" if is2 else "#/components/parameters/") + key}
+        return obj
+
     for p in op["params"]:
         name = uncps(p["name"])
         if p["loc"] == "path":
             path += "/{%s}" % name
         schema = decode_schema(p["schema"], dialect)
         obj: dict = {"name": name, "in": p["loc"], "required": bool(p["required"])}
-        _attach(obj, schema, p["ex"], comps, "d%d_%s" % (idx, name))
+        if p.get("style"):
+            obj["style"], obj["explode"] = p["style"], True
+        _attach(obj, schema, p["ex"], shared, "d%d_%s" % (idx, name))
         if is2:
             obj.update(schema)
+        elif p.get("viaContent"):
+            obj["content"] = {"application/json": {"schema": schema}}
         else:
             obj["schema"] = schema
-        params.append(obj)
-    definition: dict = {"responses": {"200": {"description": "ok"}}}
+        params.append(param_entry(obj, "d%d_%s" % (idx, name)))
+    responses: dict = {"200": {"description": "ok"}}
+    if flags.get("resp") and not is2 and op["params"]:
+        # a 2xx response example with a field named like the first parameter (and an `id`): a source of INFERRED values
+        responses["200"]["content"] = {"application/json": {"example": {uncps(op["params"][0]["name"]): 999, "id": 998}}}
+    definition: dict = {"responses": responses}
     if op["bodies"]:
         if is2:
             b = op["bodies"][0]
             schema = decode_schema(b["schema"], dialect)
             obj = {"name": "payload", "in": "body", "required": bool(b["required"])}
-            _attach(obj, schema, b["ex"], comps, "d%d_body" % idx)
+            _attach(obj, schema, b["ex"], shared, "d%d_body" % idx)
             obj["schema"] = schema
-            params.append(obj)
+            params.append(param_entry(obj, "d%d_payload" % idx))
             definition["consumes"] = [uncps(x["mt"]) for x in op["bodies"]]
         else:
             content = {}
             for n, b in enumerate(op["bodies"]):
                 schema = decode_schema(b["schema"], dialect)
                 media: dict = {}
-                _attach(media, schema, b["ex"], comps, "d%d_body%d" % (idx, n))
-                media["schema"] = schema
+                _attach(media, schema, b["ex"], shared, "d%d_body%d" % (idx, n))
+                if not b["place"].endswith("-noschema"):
+                    media["schema"] = schema
                 content[uncps(b["mt"])] = media
-            definition["requestBody"] = {"required": any(b["required"] for b in op["bodies"]), "content": content}
+            body = {"required": any(b["required"] for b in op["bodies"]), "content": content}
+            if flags.get("refBody"):
+                shared["requestBodies"]["d%d_body" % idx] = body
+                body = {"$ref": "#/components/requestBodies/d%d_body" % idx}
+            definition["requestBody"] = body
+    has_form_fields = any(p["loc"] == "formData" for p in op["params"])
+    if has_form_fields:
+        definition["consumes"] = ["application/x-www-form-urlencoded"]
+    method = "post" if op["bodies"] or has_form_fields else "get"
+    item: dict = {method: definition}
     if params:
-        definition["parameters"] = params
-    return path, ("post" if op["bodies"] else "get"), definition
+        if flags.get("pathLevel"):
+            item["parameters"] = params
+        else:
+            definition["parameters"] = params
+    return path, method, item
 
 
 def build_document(ops: list[dict], first_idx: int = 1) -> tuple[dict, list[tuple[str, str]]]:
     dialect = ops[0]["dialect"]
-    comps: dict = {}
+    shared: dict = {"examples": {}, "parameters": {}, "requestBodies": {}}
     paths: dict = {}
     where = []
     for n, op in enumerate(ops):
-        path, method, definition = build_operation(op, first_idx + n, comps)
-        paths[path] = {method: definition}
+        path, method, item = build_operation(op, first_idx + n, shared)
+        paths[path] = item
         where.append((path, method.upper()))
     if dialect == "2.0":
         doc = {"swagger": "2.0", "info": {"title": "t", "version": "1"}, "paths": paths}
+        if shared["parameters"]:
+            doc["parameters"] = shared["parameters"]
     else:
-        doc = {"openapi": "3.0.2", "info": {"title": "t", "version": "1"}, "paths": paths}
+        doc = {"openapi": "3.1.0" if dialect == "3.1" else "3.0.2", "info": {"title": "t", "version": "1"}, "paths": paths}
+        comps = {k: v for k, v in shared.items() if v}
         if comps:
-            doc["components"] = {"examples": comps}
+            doc["components"] = comps
     return doc, where
 
 
@@ -134,15 +192,41 @@ def _setup() -> dict:
     return _st
 
 
+_DEEP = re.compile(r"^([^\[\]]+)\[([^\[\]]+)\]$")
+
+
+def _group_deep_object(pairs: list[tuple[str, object]]) -> list[tuple[str, object]]:
+    """`p[a]=1&p[c]=x` (style deepObject) is the object parameter p = {a: 1, c: x}."""
+    out: list = []
+    objs: dict = {}
+    for name, value in pairs:
+        m = _DEEP.match(name)
+        if m:
+            if m.group(1) not in objs:
+                objs[m.group(1)] = {}
+                out.append((m.group(1), objs[m.group(1)]))
+            objs[m.group(1)][m.group(2)] = value
+        else:
+            out.append((name, value))
+    return out
+
+
 def _case_parts(case, not_set) -> list[dict]:
     parts = []
     for kind, attr in CONTAINERS:
         container = getattr(case, attr)
         if container:
-            for name, value in dict(container).items():
-                parts.append({"kind": kind, "name": cps(str(name)), "v": encode_value(value)})
+            pairs = [(str(k), v) for k, v in dict(container).items()]
+            for name, value in (_group_deep_object(pairs) if kind == "query" else pairs):
+                parts.append({"kind": kind, "name": cps(name), "v": encode_value(value)})
     if case.body is not not_set and not type(case.body).__name__ == "NotSet":
-        parts.append({"kind": "body", "name": cps(case.media_type or ""), "v": encode_value(case.body)})
+        body = case.body
+        if isinstance(body, bytes):  # an `externalValue` example is kept as the bytes that were fetched
+            try:
+                body = json.loads(body.decode("utf-8"))
+            except Exception:
+                pass
+        parts.append({"kind": "body", "name": cps(case.media_type or ""), "v": encode_value(body)})
     return parts
 
 
@@ -178,7 +262,7 @@ def _wire_parts(op: dict, base: str, rec) -> list[dict]:
     path_params = [p for p in op["params"] if p["loc"] == "path"]
     for p, seg in zip(path_params, segs):
         parts.append({"kind": "path", "name": p["name"], "v": encode_value(unquote(seg))})
-    for k, v in parse_qsl(rec.query, keep_blank_values=True):
+    for k, v in _group_deep_object(parse_qsl(rec.query, keep_blank_values=True)):
         parts.append({"kind": "query", "name": cps(k), "v": encode_value(v)})
     for p in op["params"]:
         if p["loc"] == "header":
@@ -193,7 +277,10 @@ def _wire_parts(op: dict, base: str, rec) -> list[dict]:
     if rec.body:
         mt = (rec.header("Content-Type") or "").split(";")[0].strip()
         try:
-            value = encode_value(json.loads(rec.body.decode("utf-8")))
+            if mt.lower() == "application/x-www-form-urlencoded":
+                value = encode_value(dict(parse_qsl(rec.body.decode("utf-8"), keep_blank_values=True)))
+            else:
+                value = encode_value(json.loads(rec.body.decode("utf-8")))
         except Exception:
             value = {"t": "opaque", "why": "not JSON"}
         parts.append({"kind": "body", "name": cps(mt), "v": value})
@@ -273,10 +360,16 @@ def _sent_text(v: dict):
 
 def _at(v: dict, path: list, e: dict, kind: str, mode: str) -> bool:
     if not path:
-        as_text = v["t"] == "str" and v["v"] == _sent_text(e)
+        def leaf(a: dict, b: dict) -> bool:
+            as_text = b["t"] == "str" and b["v"] == _sent_text(a)
+            return as_text if mode == "wire" else (_eq(a, b) or as_text)
+
         if kind == "body":
             return _eq(e, v)
-        return as_text if mode == "wire" else (_eq(e, v) or as_text)
+        if kind == "form" and e["t"] == "obj":
+            return (v["t"] == "obj" and len(e["k"]) == len(v["k"]) and len({tuple(k) for k in v["k"]}) == len(v["k"])
+                    and all(k in v["k"] and leaf(x, v["v"][v["k"].index(k)]) for k, x in zip(e["k"], e["v"])))
+        return leaf(e, v)
     s = path[0]
     if s["k"] == "prop":
         if v["t"] != "obj" or s["name"] not in v["k"]:
@@ -297,18 +390,50 @@ def _falsy(v: dict) -> bool:
     return v["t"] in ("int", "bool", "str", "arr", "obj") and not v.get("v")
 
 
+KNOWN_MT = ("application/json", "text/json", "application/x-www-form-urlencoded")
+
+
+def _known_mt(name: list) -> bool:
+    return uncps(name).lower() in KNOWN_MT
+
+
+def _unfillable(op: dict) -> bool:
+    def unsat(s: dict) -> bool:
+        return s.get("sk") == "schema" and "minimum" in s and "maximum" in s and s["minimum"] > s["maximum"]
+
+    return any(p["required"] and not p["ex"] and unsat(p["schema"]) for p in op["params"]) or (
+        any(b["required"] for b in op["bodies"]) and all(not _known_mt(b["mt"]) and not b["ex"] for b in op["bodies"]))
+
+
 def demanded(op: dict) -> list[dict]:
-    """Mirror of Examples!Demanded: beside an unsendable example only the sendable examples of the same parameter."""
+    """Mirror of Examples!Demanded."""
     every = all_examples(op)
+    if _unfillable(op):
+        return []
     bad = [(e["kind"], e["name"]) for e in every if _bad(e)]
-    if not bad:
-        return every
-    return [e for e in every if not _bad(e) and (e["kind"], e["name"]) in bad]
+    if bad:
+        return [e for e in every if not _bad(e) and (e["kind"], e["name"]) in bad]
+    if any(not _known_mt(b["mt"]) for b in op["bodies"]):
+        return [e for e in every if e["kind"] == "body" and e["name"] != [42] and _known_mt(e["name"])]
+    return every
+
+
+def _occurs_in(e: dict, p: dict, mode: str) -> bool:
+    if e["kind"] == "formData":
+        return p["kind"] == "body" and _at(p["v"], [{"k": "prop", "name": e["name"]}] + e["path"], e["v"], "form", mode)
+    return (_match(p, e["kind"], e["name"])
+            and _at(p["v"], e["path"], e["v"], "form" if e["kind"] == "body" and uncps(p["name"]).lower() == KNOWN_MT[2] else e["kind"], mode))
 
 
 def dropped(op: dict, obs: dict) -> list[dict]:
     return [e for e in (demanded(op) if obs["status"] == "error" else all_examples(op))
-            if not any(_match(p, e["kind"], e["name"]) and _at(p["v"], e["path"], e["v"], e["kind"], obs["mode"])
+            if not any(_occurs_in(e, p, obs["mode"]) for r in obs["sent"] for p in r["parts"])]
+
+
+def _dropped_old(op: dict, obs: dict) -> list[dict]:
+    return [e for e in (demanded(op) if obs["status"] == "error" else all_examples(op))
+            if not any(_match(p, e["kind"], e["name"])
+                       and _at(p["v"], e["path"], e["v"], "form" if e["kind"] == "body" and uncps(p["name"]).lower() == KNOWN_MT[2] else e["kind"], obs["mode"])
                        for r in obs["sent"] for p in r["parts"])]
 
 
@@ -323,7 +448,12 @@ def complaints_without_fill(op: dict, obs: dict, unsendable: bool) -> set[str]:
     if dropped(op, obs):
         out.add("dropped")
     for r in obs["sent"]:
-        if any(p["required"] and not any(_match(x, p["loc"], p["name"]) for x in r["parts"]) for p in op["params"]):
+        def has(p: dict) -> bool:
+            if p["loc"] == "formData":
+                return any(x["kind"] == "body" and x["v"]["t"] == "obj" and p["name"] in x["v"]["k"] for x in r["parts"])
+            return any(_match(x, p["loc"], p["name"]) for x in r["parts"])
+
+        if any(p["required"] and not has(p) for p in op["params"]):
             out.add("missing-required")
         if any(b["required"] for b in op["bodies"]) and not any(x["kind"] == "body" for x in r["parts"]):
             out.add("missing-required")
@@ -355,6 +485,8 @@ def signature(op: dict, obs: dict, complaint: str, any_arith: set | None = None)
             arith = "alone" if others == 0 else ("smaller-pool" if e["pool"] < max(pools) else "largest-pool")
             if any(_bad(x) for x in all_examples(op)):
                 arith = "beside-unsendable"
+            elif any(not _known_mt(b["mt"]) for b in op["bodies"]):
+                arith = "beside-unserializable"
             elif op.get("cfg", "none") != "none":
                 arith = "configured-" + op["cfg"]
             elif obs["mode"] == "wire" and all(x["v"]["t"] == "bool" for x in d):
@@ -439,7 +571,7 @@ def run(ctx: Ctx) -> Outcome:
     jres, by_obs = judge(ctx, [(ops[i], o) for i, o in records])
     mismatch = []
     for j, (i, o) in enumerate(records, 1):
-        mine = complaints_without_fill(ops[i], o, cases[i]["unsendable"])
+        mine = complaints_without_fill(ops[i], o, cases[i]["errorJustified"])
         theirs = by_obs.get(j, set()) - {"invalid-fill"}
         if mine != theirs:
             mismatch.append((j, sorted(mine), sorted(theirs)))
